@@ -87,6 +87,38 @@ def overloaded(rng):
     return {"name": "ovl", "comps": comps, "phases": {}, "_place": place, "_k": k}
 
 
+def stepdown(rng):
+    """modest-drop trees with a large step-down ratio: a series element (source resistance / RLoss / PSwitch) upstream of a
+    buck converter that feeds a high-current, low-voltage load.  The TRUE drop is 2-12 % of the supply, but the element's
+    resistance times the LOAD-side current exceeds the supply: an initial guess or a sweep that mixes the two sides of the
+    converter trips the polarity guards although a modest-drop steady state exists."""
+    v = gen.sd(rng, 9.0, 60.0)
+    vo = gen.sd(rng, 0.6, 3.3)
+    eff = gen.ud(rng, 0.7, 0.97)
+    iload = gen.sd(rng, 2.0, 60.0)
+    iin = vo * iload / (eff * v)
+    frac = rng.uniform(0.02, 0.12)
+    r = float("%.4g" % (frac * v / iin))
+    place = rng.choice(["source", "rloss", "pswitch"])
+    comps = [{"name": "S", "kind": "source", "args": {"vo": v}, "parents": []}]
+    par = "S"
+    if place == "source":
+        comps[0]["args"]["rs"] = r
+    else:
+        comps.append({"name": "E", "kind": place, "args": {"rs": r}, "parents": ["S"]})
+        par = "E"
+    comps.append({"name": "B", "kind": "converter", "args": {"vo": vo, "eff": eff}, "parents": [par]})
+    last = "B"
+    if rng.random() < 0.3:
+        comps.append({"name": "B2", "kind": "linreg", "args": {"vo": float("%.3g" % (vo * 0.7))}, "parents": ["B"]})
+        last = "B2"
+    if rng.random() < 0.7:
+        comps.append({"name": "L", "kind": "iload", "args": {"ii": iload}, "parents": [last]})
+    else:
+        comps.append({"name": "L", "kind": "rload", "args": {"rs": float("%.4g" % (vo / iload))}, "parents": [last]})
+    return {"name": "stepdown", "comps": comps, "phases": {}, "_place": place}
+
+
 def solve_observed(desc, kw):
     """solve(quiet=False): returns (df, exc, sweeps per phase from the printed messages)"""
     sys_, e = sysdesc.quiet_call(sysdesc.build, desc)
@@ -120,7 +152,7 @@ def one(ctx, desc, kw, stream):
     # ---- oracle: outcome class
     if cls not in ("ok", "RuntimeError", "ValueError(unstable)"):
         ctx.oracle(desc, "exception_class", "solve", {"cls": cls}, {"exception": repr(err[1]), "solve_kw": kw})
-    if stream == "modest" and cls != "ok" and not kw:
+    if stream in ("modest", "stepdown") and cls != "ok" and not kw:
         ctx.oracle(desc, "liveness_default_settings", "solve", {}, {"exception": repr(err[1]), "solve_kw": kw})
     # ---- replay of the sweep loop in IEEE doubles by the model
     vt, it, mi = kw.get("vtol", 1e-6), kw.get("itol", 1e-6), kw.get("maxiter", 10000)
@@ -171,6 +203,8 @@ def run(ctx):
     n = ctx.n(120, 5000)
     for _ in range(n):
         one(ctx, gen.gen_system(ctx.rng, phases=0.0, max_nodes=16, p_neg_src_rs=0.0), {}, "modest")
+    for _ in range(n // 4):
+        one(ctx, stepdown(ctx.rng), {}, "stepdown")
     for _ in range(n):
         one(ctx, overloaded(ctx.rng), settings(ctx.rng) if ctx.rng.random() < 0.3 else {}, "overloaded")
     for _ in range(n // 2):
